@@ -33,11 +33,14 @@ Proof. unfold dec_of_N. simpl. destruct (n <? 10); [discriminate|apply dec_digit
 Definition target_in (td p : str) : Prop :=
   exists x, valid_name x = true /\ (p = join2 (join2 td s_info) x \/ p = join2 (join2 td s_files) x).
 
-Definition td_shape (env : environ) (uid : N) (users : list str) (td : str) : Prop :=
-  In td (home_trash_dir_path_from_env env) \/ In td users \/
-  exists v, td = join3 v ($".Trash") (dec_of_N uid) \/ td = join2 v ($".Trash-" ++ dec_of_N uid).
+(* homes: the home trash directories in play; uids: the uids whose volume trash directories are in play.  Without
+   --all-users these are the home trash of the environment and the uid of the process; with it, those of every entry
+   of the password database (eo_homes / eo_uids below). *)
+Definition td_shape (homes : list str) (uids : list N) (users : list str) (td : str) : Prop :=
+  In td homes \/ In td users \/
+  exists v uid, In uid uids /\ (td = join3 v ($".Trash") (dec_of_N uid) \/ td = join2 v ($".Trash-" ++ dec_of_N uid)).
 
-Definition purge_ok (env : environ) (uid : N) (users : list str) (o : op) : Prop :=
+Definition purge_ok (env : list str) (uid : list N) (users : list str) (o : op) : Prop :=
   match o with
   | Remove p | Rmtree p => exists td, td_shape env uid users td /\ clean td /\ target_in td p
   | Makedirs _ _ | OpenExcl _ | WriteFd _ | CloseFd | Move _ _ => False
@@ -64,8 +67,9 @@ Lemma top2_clean v uid : clean (join2 v ($".Trash-" ++ dec_of_N uid)).
 Proof. apply join2_is_clean; [discriminate|]. rewrite mem_app. rewrite dec_of_N_noslash. reflexivity. Qed.
 
 Section Targets.
-Variables (env : environ) (uid : N) (users : list str).
+Variables (env : list str) (uid : list N) (users : list str).
 Hypothesis Husers : Forall clean users.
+Hypothesis Hhomes : Forall clean env.
 Definition PL := ops_logic (purge_ok env uid users).
 Notation TT := (T PL).
 Ltac aret := first [apply (T_ret PL); exact I | apply (T_throw PL)].
@@ -121,47 +125,83 @@ Definition ev_ok (ev : scan_event) : Prop := match ev with Found td _ => good_td
 Lemma empty_handle_ok o u ev : ev_ok ev -> TT (empty_handle o u ev) (fun _ => True).
 Proof. intros H. destruct ev; simpl; try aret. apply empty_trash_dir_ok; exact H. Qed.
 
-Lemma ev_top v : ev_ok (Found (join3 v ($".Trash") (dec_of_N uid)) v)
-              /\ ev_ok (SkippedNotSticky (join3 v ($".Trash") (dec_of_N uid)))
-              /\ ev_ok (SkippedSymlink (join3 v ($".Trash") (dec_of_N uid)))
-              /\ ev_ok (Found (join2 v ($".Trash-" ++ dec_of_N uid)) v).
+Lemma ev_top u : In u uid -> top_events ev_ok u.
 Proof.
-  split; [|split; [exact I|split; [exact I|]]].
-  - split; [right; right; exists v; left; reflexivity|apply top1_clean].
-  - split; [right; right; exists v; right; reflexivity|apply top2_clean].
+  intros Hu v. split; [|split; [exact I|split; [exact I|]]].
+  - split; [right; right; exists v, u; split; [exact Hu|left; reflexivity]|apply top1_clean].
+  - split; [right; right; exists v, u; split; [exact Hu|right; reflexivity]|apply top2_clean].
 Qed.
-Lemma ev_home p : In p (home_trash_dir_path_from_env env) -> ev_ok (Found p [c_slash]).
-Proof. intros H. split; [left; exact H|eapply home_dirs_clean; eauto]. Qed.
+Lemma ev_home p : In p env -> ev_ok (Found p [c_slash]).
+Proof. intros H. split; [left; exact H|]. rewrite Forall_forall in Hhomes. apply Hhomes. exact H. Qed.
 Lemma ev_user d v : In d users -> ev_ok (Found d v).
 Proof. intros H. split; [right; left; exact H|]. rewrite Forall_forall in Husers. apply Husers. exact H. Qed.
 End Targets.
 
-Theorem empty_targets_inside_lemma o : Forall clean (eo_trash_dirs o) ->
-  all_runs (fun t _ => Forall (fun p => purge_ok (eo_environ o) (eo_uid o) (eo_trash_dirs o) (fst p)) t) (empty_main o).
+(* the home trash directories and the uids a run of trash-empty is about *)
+Definition eo_homes (o : empty_opts) : list str :=
+  match eo_all_users o with
+  | None => home_trash_dir_path_from_env (eo_environ o)
+  | Some pw => map (fun u => home_trash_dir_path_from_home (fst u)) pw
+  end.
+Definition eo_uids (o : empty_opts) : list N :=
+  match eo_all_users o with None => [eo_uid o] | Some pw => map snd pw end.
+Lemma home_from_home_clean h : clean (home_trash_dir_path_from_home h).
+Proof. unfold home_trash_dir_path_from_home. apply clean_app. split; [discriminate|reflexivity]. Qed.
+Lemma eo_homes_clean o : Forall clean (eo_homes o).
 Proof.
-  intros Hu. set (env := eo_environ o). set (uid := eo_uid o). set (users := eo_trash_dirs o).
+  unfold eo_homes. destruct (eo_all_users o) as [pw|].
+  - apply Forall_forall. intros p Hp. apply in_map_iff in Hp. destruct Hp as [u [Hu _]]. subst p. apply home_from_home_clean.
+  - apply Forall_forall. intros p Hp. eapply home_dirs_clean; eauto.
+Qed.
+Lemma eo_select_events o (EV : scan_event -> Prop) :
+  (forall u, In u (eo_uids o) -> top_events EV u) ->
+  (forall p, In p (eo_homes o) -> EV (Found p [c_slash])) ->
+  (forall d v, In d (eo_trash_dirs o) -> EV (Found d v)) ->
+  match eo_all_users o with
+  | Some pw => forall u, In u pw -> top_events EV (snd u) /\ EV (Found (home_trash_dir_path_from_home (fst u)) [c_slash])
+  | None => top_events EV (eo_uid o)
+            /\ (forall p, In p (home_trash_dir_path_from_env (eo_environ o)) -> EV (Found p [c_slash]))
+            /\ (forall d v, In d (eo_trash_dirs o) -> EV (Found d v))
+  end.
+Proof.
+  unfold eo_uids, eo_homes. intros Ht Hh Hu. destruct (eo_all_users o) as [pw|].
+  - intros u Hin. split; [apply Ht; apply in_map; exact Hin|apply Hh].
+    apply in_map_iff. exists u. split; [reflexivity|exact Hin].
+  - split; [apply Ht; left; reflexivity|split; assumption].
+Qed.
+
+Theorem empty_targets_inside_lemma o : Forall clean (eo_trash_dirs o) ->
+  all_runs (fun t _ => Forall (fun p => purge_ok (eo_homes o) (eo_uids o) (eo_trash_dirs o) (fst p)) t) (empty_main o).
+Proof.
+  intros Hu. set (env := eo_homes o). set (uid := eo_uids o). set (users := eo_trash_dirs o).
+  assert (Hh : Forall clean env) by apply eo_homes_clean.
   eapply all_runs_mono; [|apply (ops_sat_sound (purge_ok env uid users) (empty_main o) (fun _ => True))].
   - intros t out [Ht _]. exact Ht.
   - pose (P := PL env uid users). change (T P (empty_main o) (fun _ => True)). unfold empty_main.
     eapply (T_bind P); [apply (T_call_bool P); exact I|]. intros tty _.
     apply (T_seq P); [|apply (T_ret P); exact I].
+    assert (Hsel : match eo_all_users o with
+      | Some pw => forall u, In u pw -> top_events (ev_ok env uid users) (snd u)
+                                       /\ ev_ok env uid users (Found (home_trash_dir_path_from_home (fst u)) [c_slash])
+      | None => top_events (ev_ok env uid users) (eo_uid o)
+            /\ (forall p, In p (home_trash_dir_path_from_env (eo_environ o)) -> ev_ok env uid users (Found p [c_slash]))
+            /\ (forall d v, In d (eo_trash_dirs o) -> ev_ok env uid users (Found d v))
+      end).
+    { apply eo_select_events; [intros u Hin; apply ev_top; exact Hin|intros p Hp; apply ev_home; assumption|
+                               intros d v Hd; apply ev_user; assumption]. }
     destruct (match eo_interactive o with Some b => b | None => tty end).
     + eapply (T_bind P).
       * apply (safe_select_trash_dirs P (purge_scan env uid users) (fun acc ev => Ret (acc ++ [ev])) (ev_ok env uid users)
                  (Forall (ev_ok env uid users))).
         -- intros s ev Hs Hev. apply (T_ret P). apply Forall_app. split; [exact Hs|constructor; [exact Hev|constructor]].
-        -- apply ev_top.
-        -- apply ev_home.
-        -- apply ev_user. exact Hu.
+        -- exact Hsel.
         -- constructor.
       * intros evs Hevs. eapply (T_bind P); [apply (T_call_str P); exact I|]. intros reply _.
         destruct (parse_reply reply); [|apply (T_ret P); exact I]. apply (T_for_each P). intros ev Hev.
         apply empty_handle_ok. rewrite Forall_forall in Hevs. apply Hevs. exact Hev.
     + apply (safe_select_trash_dirs P (purge_scan env uid users) (empty_handle o) (ev_ok env uid users) (fun _ => True)).
       * intros s ev _ Hev. apply empty_handle_ok. exact Hev.
-      * apply ev_top.
-      * apply ev_home.
-      * apply ev_user. exact Hu.
+      * exact Hsel.
       * exact I.
 Qed.
 
@@ -183,9 +223,10 @@ Proof.
 Qed.
 
 Theorem rm_targets_inside_lemma o :
-  all_runs (fun t _ => Forall (fun p => purge_ok (ro_environ o) (ro_uid o) [] (fst p)) t) (rm_main o).
+  all_runs (fun t _ => Forall (fun p => purge_ok (home_trash_dir_path_from_env (ro_environ o)) [ro_uid o] [] (fst p)) t) (rm_main o).
 Proof.
-  set (env := ro_environ o). set (uid := ro_uid o).
+  set (env := home_trash_dir_path_from_env (ro_environ o)). set (uid := [ro_uid o]).
+  assert (Hh : Forall clean env) by (apply Forall_forall; intros p Hp; eapply home_dirs_clean; eauto).
   eapply all_runs_mono; [|apply (ops_sat_sound (purge_ok env uid []) (rm_main o) (fun _ => True))].
   - intros t out [Ht _]. exact Ht.
   - pose (P := PL env uid []). change (T P (rm_main o) (fun _ => True)). unfold rm_main.
@@ -196,7 +237,7 @@ Proof.
       eapply (T_bind P); [apply (safe_list_trashinfo P (purge_scan env uid []))|]. intros infos Hinfos.
       apply (T_for_each P). intros p Hp. destruct (Hinfos p Hp) as [x [Hx [Hti Hpx]]]. subst p.
       apply rm_one_info_ok; assumption.
-    + apply ev_top.
-    + apply ev_home.
+    + apply ev_top. left; reflexivity.
+    + intros p Hp. apply ev_home; assumption.
     + exact I.
 Qed.
